@@ -71,6 +71,23 @@ Proof. exact kkt_unique_minimiser. Qed.
 Theorem C05_objective_is_model_objective : forall A b x, @objective ROps A b x = objR A b x.
 Proof. exact objective_objR. Qed.
 
+(* the model's answer, left through the loop condition, minimises the objective over s >= 0 up to tolerance * sum y *)
+Theorem C05_positive_only_is_minimiser : forall n A b (eps : R) uses_p_initial fuel (d : list R) y,
+  wf n A b -> sym_mat n A -> pos_def n A -> 0 <= eps ->
+  @reconstruction_positive_only_x ROps fuel A b eps uses_p_initial = Ok (d, ExitCond) ->
+  length y = n -> (forall i, (i < n)%nat -> 0 <= nth i y 0) ->
+  objR A b d - @tolerance ROps eps n * sumR y <= objR A b y.
+Proof. exact positive_only_is_minimiser. Qed.
+(* "whether or not the warm-start guess of the positive set is enabled": with an exact tolerance, any two starts
+   (cold, sign-pattern mask, arbitrary mask) that leave through the loop condition return the same vector *)
+Theorem C05_warm_start_irrelevant : forall n A b pinit1 pinit2 fuel1 fuel2 (d1 d2 : list R) P1 P2,
+  wf n A b -> sym_mat n A -> pos_def n A ->
+  (forall P0, pinit1 = Some P0 -> length P0 = n) -> (forall P0, pinit2 = Some P0 -> length P0 = n) ->
+  @fnnls ROps fuel1 A b 0 pinit1 = Ok (d1, ExitCond, P1) ->
+  @fnnls ROps fuel2 A b 0 pinit2 = Ok (d2, ExitCond, P2) ->
+  d1 = d2.
+Proof. exact warm_start_irrelevant. Qed.
+
 (* ---- parameters forced to zero: they are zero, the others are the positive-only answer of the reduced system, whose
         gradient is the full-system gradient ---- *)
 Theorem C05_forced_zero_reduced_system : forall n A b (eps : R) fuel set objs (s : list R),
@@ -99,6 +116,15 @@ Theorem C05_per_object_data_sums : forall npix (Bs : list (list (list R))) (s : 
   (forall B, In B Bs -> wfB npix B) -> length s = list_sum (widths Bs) ->
   @mapped_total ROps npix (@mapped_dict ROps Bs s) = @hstack_dot ROps Bs s npix.
 Proof. exact per_object_data_sums. Qed.
+(* w-tilde formalism: the loop over unique mappings is (the mapping matrix they stand for) x reconstruction *)
+Theorem C05_unique_mappings_are_matrix_vector : forall (pix : list (list Z)) (wts : list (list R)) (lens : list nat) (s : list R),
+  (forall prow wrow len, In (prow, wrow, len) (combine (combine pix wts) lens) ->
+     forall p, (p < len)%nat -> (Z.to_nat (nth p prow 0%Z) < length s)%nat) ->
+  @mapped_via_unique ROps pix wts lens s
+  = map (fun pwl : (list Z * list R) * nat =>
+           dotR (@unique_matrix_row ROps (fst (fst pwl)) (snd (fst pwl)) (snd pwl) (length s)) s)
+        (combine (combine pix wts) lens).
+Proof. exact mapped_via_unique_is_matrix_vector. Qed.
 Theorem C05_reconstruction_dict_partitions : forall ps (s : list R), length s = list_sum ps ->
   concat (@split_by ROps ps s) = s /\ map (@length R) (@split_by ROps ps s) = ps.
 Proof. exact split_by_concat. Qed.
@@ -153,3 +179,6 @@ Print Assumptions C05_kept_indices.
 Print Assumptions C05_mapped_is_matrix_vector.
 Print Assumptions C05_per_object_data_sums.
 Print Assumptions C05_reconstruction_dict_partitions.
+Print Assumptions C05_positive_only_is_minimiser.
+Print Assumptions C05_warm_start_irrelevant.
+Print Assumptions C05_unique_mappings_are_matrix_vector.
